@@ -365,6 +365,12 @@ class DiscretizedSpace(TensorSpace):
                 inp, self.domain, out_dtype=self.dtype,
             )
             sampled = point_collocation(func, self.meshgrid, **kwargs)
+            # A callable may return (a view of) the mesh itself, e.g.
+            # ``lambda x: x`` in 1d. The new element must own its data,
+            # otherwise in-place changes of it would alter the grid.
+            if any(np.may_share_memory(sampled, vec)
+                   for vec in self.grid.coord_vectors):
+                sampled = sampled.copy()
             return self.element_type(
                 self, self.tspace.element(sampled, order=order)
             )
